@@ -623,6 +623,14 @@ TARGETS = [
     # ---- wave 8, canonsort_keys (C17): a dict comprehension over enumerate, filtered comprehensions, keyed stable sort
     Target('caselessdict.py', None, 'canonsort_keys', 'canonsort_keys', None, {}, {}, False, 'cdsort',
            {'keys': 'StrList', 'canonical_order': 'Opt:StrList'}, None, 'StrList'),
+    # ---- wave 8, the second half of Timezone.get_transitions (C12) as a FRAGMENT: everything after `transitions.sort()`.  A
+    # transition is the tuple (transtime, osfrom, osto, name) with instants and timedeltas as ints of seconds (the hand model's
+    # convention); `dst` (a dict from name to bool) is opaque, `dst[name]` a parameter that may raise KeyError
+    Target('cal.py', 'Timezone', 'get_transitions', 'get_transitions_info', None, {},
+           {'dst[]': ('pgetitem', 'dst_of', 'Str', 'Bool')}, False, 'tz',
+           {'transitions': 'List:Tuple:Int × Int × Int × Str', 'dst': 'DST'},
+           {'after': 'transitions.sort()', 'result': ('transition_times', 'transition_info')}, None,
+           {'dst_offset': 'FalseOrInt', 'transition_info': 'List:Tuple:Int × Int × Str'}),
     # ---- the parse loop (C01 / C04 / C09): Component.from_ical.  Everything done with the opaque objects is a parameter
     Target('cal.py', 'Component', 'from_ical', 'Component_from_ical', None, {}, FROM_ICAL, False, 'parse',
            {'st': 'Str', 'multiple': 'Bool'}, None, 'Result:C', {'stack': 'List:C', 'comps': 'List:C'}),
@@ -824,6 +832,7 @@ class Fn:
     def __init__(self, target, cls_node, func, registry, modnames=None):
         self.t, self.cls, self.func, self.registry = target, cls_node, func, registry
         self.pairtarget = {}
+        self.tupletarget = {}
         self.setelts = set()
         self.excluded = {}
         self.modnames = modnames or {}
@@ -1152,6 +1161,14 @@ class Fn:
         v, sl = self.expr(node.value, env), node.slice
         if v.type == 'Tuple' and isinstance(sl, ast.Constant) and type(sl.value) is int and 0 <= sl.value < len(v.elts):
             return self.narrow.get(v.elts[sl.value].lean, v.elts[sl.value])     # a component of a tuple display
+        if v.type.startswith('Tuple:') and v.elts is None and isinstance(sl, ast.Constant) and type(sl.value) is int \
+                and self.tuple_parts(v) is not None and 0 <= sl.value < len(self.tuple_parts(v)):
+            return self.tuple_parts(v)[sl.value]        # wave 8: a component of a tuple value
+        if v.type.startswith('List:Tuple:') and not isinstance(sl, ast.Slice) and ast.unparse(sl) not in ('-1', '0'):
+            i = self.expr(sl, env)       # wave 8: `xs[i]` with an int: IndexError outside the list, a negative index counts from the end
+            if i.type != 'Int':
+                self.fail(node, f'index `{ast.unparse(node)[:40]}` is not an int')
+            return self.hoist(node, f'listGetI {v.lean} {i.lean}', v.type[5:])
         if v.type.startswith('List:') and not isinstance(sl, ast.Slice) and ast.unparse(sl) in ('-1', '0'):
             return self.hoist(node, f'{"listLast" if ast.unparse(sl) == "-1" else "listHead"} {v.lean}', v.type[5:])
         lit = lambda b: b is None or (isinstance(b, ast.Constant) and type(b.value) is int and b.value >= 0)  # noqa: E731
@@ -1206,6 +1223,16 @@ class Fn:
         if v.type.startswith('Unbound:'):       # a `for` target after the loop
             return self.hoist(node, f'getBound {v.lean}', v.type[8:])
         return v
+
+    def tuple_parts(self, v):
+        """the components of a value whose type is a product of simple types (`Tuple:Int × Int × Str`), else None"""
+        if not v.type.startswith('Tuple:') or v.elts is not None:
+            return None
+        comps = v.type[6:].split(' × ')
+        if any(c not in ('Int', 'Str', 'Bool') for c in comps):
+            return None
+        n = len(comps)
+        return [V(v.lean + '.2' * i + ('.1' if i < n - 1 else ''), c, None) for i, c in enumerate(comps)]
 
     def as_item(self, v, node):
         """a pair `(name, x)` as a value: the name and what x is (bytes, a value object, what `self[name]` gave)"""
@@ -1738,6 +1765,22 @@ class Fn:
         """`[x for x in xs if x.m()]` over a list of opaque objects whose method `m` is a parameter;
         `[E for v in xs]` whose E can raise: the elements in order, the first exception ends it"""
         g = node.generators[0]
+        if len(node.generators) == 1 and not g.is_async and not g.ifs and isinstance(g.target, ast.Tuple) \
+                and all(isinstance(e, ast.Name) for e in g.target.elts):
+            xs = self.expr(g.iter, env)      # wave 8: `[E for a, b, _ in xs]` over a list of tuples (a name may repeat: the last binds)
+            if xs.type.startswith('List:Tuple:'):
+                self.fresh += 1
+                x = f"p{self.fresh}'"
+                parts = self.tuple_parts(V(x, xs.type[5:], None))
+                if parts is not None and len(parts) == len(g.target.elts):
+                    keep, self.pre = self.pre, []
+                    try:
+                        elt = self.lazily(self.expr, node.elt, dict(env, **{e.id: pv for e, pv in zip(g.target.elts, parts)}))
+                        inner = self.pre
+                    finally:
+                        self.pre = keep
+                    if not inner and elt.type in ('Int', 'Str', 'Bool'):
+                        return V(f'({xs.lean}.map (fun {x} => {elt.lean}))', 'List:' + elt.type, None)
         two = len(node.generators) == 2 and all(not h.is_async and isinstance(h.target, ast.Name) and not h.ifs for h in node.generators) \
             and node.generators[0].target.id != node.generators[1].target.id
         if (len(node.generators) == 1 or two) and not g.is_async and isinstance(g.target, ast.Name) and not g.ifs:
@@ -2140,6 +2183,8 @@ class Fn:
         if fn.id == 'timedelta' and not node.args and node.keywords:
             units = ['weeks', 'days', 'hours', 'minutes', 'seconds']
             kw = {k.arg: self.expr(k.value, env) for k in node.keywords}
+            if self.t.group == 'tz' and len(kw) == len(node.keywords) and set(kw) <= set(units) and all(v.type == 'Int' for v in kw.values()):
+                return V('(tdSeconds ' + ' '.join(kw[u].lean if u in kw else '(0 : Int)' for u in units) + ')', 'Int', None)
             if self.t.group == 'se' and len(kw) == len(node.keywords) and set(kw) <= set(units) and all(v.type == 'Int' for v in kw.values()):
                 return V('(tdsOfUnits ' + ' '.join(kw[u].lean if u in kw else '(0 : Int)' for u in units) + ')', 'TDS', None)
             if len(kw) == len(node.keywords) and set(kw) <= set(units) and all(v.type == 'Int' for v in kw.values()):
@@ -2321,6 +2366,20 @@ class Fn:
             if self.loopctx:
                 return self.take_pre() + [self.ret(f'(Loop.ret {v.lean})')]
             return self.take_pre() + [self.ret(v.lean)]
+        if isinstance(s, ast.Assert) and isinstance(s.test, ast.Compare) and len(s.test.ops) == 1 and isinstance(s.test.ops[0], ast.IsNot) \
+                and isinstance(s.test.comparators[0], ast.Constant) and s.test.comparators[0].value is False \
+                and isinstance(s.test.left, ast.Name) and (self.t.locals or {}).get(s.test.left.id) == 'FalseOrInt' and s.test.left.id in env \
+                and env[s.test.left.id].type == 'OptInt' and re.fullmatch(r"[A-Za-z_][\w']*", env[s.test.left.id].lean):
+            # wave 8: this assert IS evaluated (the hand model has its failure): AssertionError when the value is still False
+            if not self.monadic:
+                raise NeedMonad()
+            x = env[s.test.left.id]
+            self.fresh += 1
+            v = f"n{self.fresh}'"
+            env2 = dict(env)
+            env2[s.test.left.id] = V(v, 'Int', None)
+            return [f'match {x.lean} with', '| none => throw Exc.assertionError', f'| some {v} => do'] + \
+                ['  ' + ln for ln in self.block(rest, env2, tail)]
         if isinstance(s, ast.Assert):       # not evaluated: a documented precondition
             self.notes.append(f'PRECONDITION (assert, line {s.lineno}, not checked by the model; python -O is not '
                               f'modelled): `{ast.unparse(s.test)}`')
@@ -2458,6 +2517,9 @@ class Fn:
                 new = V(f'({x.lean} ++ [{self.as_item(v, s).lean}])', 'ItemList', None)
             elif x.type.startswith('List:') and v.type == x.type[5:]:
                 new = V(f'({x.lean} ++ [{v.lean}])', x.type, None)
+            elif x.type.startswith('List:Tuple:') and v.type == 'Tuple' and v.elts \
+                    and ' × '.join(lean_type(self.narrow.get(e.lean, e).type) for e in v.elts) == x.type[11:]:
+                new = V(f'({x.lean} ++ [(' + ', '.join(self.narrow.get(e.lean, e).lean for e in v.elts) + ')])', x.type, None)
             elif (x.type, v.type) in (('CompList', 'Comp'), ('ItemList', 'Item')):
                 new = V(f'({x.lean} ++ [{v.lean}])', x.type, None)
             else:
@@ -2519,6 +2581,21 @@ class Fn:
             f = self.param(e[1], f'{lean_type(obj.type)} → {lean_type(e[2])} → {lean_type(e[3])} → {lean_type(obj.type)}')
             env, line = self.bind(env, name, V(f'({f.lean} {obj.lean} {k.lean} {v.lean})', obj.type, None))
             return self.take_pre() + [line] + self.block(rest, env, tail)
+        if isinstance(s, ast.Assign) and len(s.targets) == 1 and isinstance(s.targets[0], ast.Name) \
+                and (self.t.locals or {}).get(s.targets[0].id) == 'FalseOrInt' and s.targets[0].id not in self.slots:
+            # wave 8: a local that is `False` or an int (a timedelta in seconds): `Option Int`, False = none; its truth value
+            # is Python's (False and 0 are false); `assert x is not False` raises AssertionError on none
+            if isinstance(s.value, ast.Constant) and s.value.value is False:
+                v = V('(none : Option Int)', 'OptInt', None)
+            else:
+                v = self.expr(s.value, env)
+                if v.type == 'Int':
+                    v = V(f'(some {v.lean})', 'OptInt', None)
+                if v.type != 'OptInt':
+                    self.fail(s, f'`{s.targets[0].id}` is assigned a {v.type}, declared False-or-int')
+            lines = self.take_pre()
+            env, line = self.bind(env, s.targets[0].id, v)
+            return lines + [line] + self.block(rest, env, tail)
         if isinstance(s, ast.Assign) and len(s.targets) == 1 and isinstance(s.targets[0], ast.Name) \
                 and (self.t.locals or {}).get(s.targets[0].id, '').startswith('Opt:'):
             want = self.t.locals[s.targets[0].id]       # a local declared to hold an object or None
@@ -3145,9 +3222,17 @@ class Fn:
         it, tgt, iname = s.iter, s.target, None
         if isinstance(it, ast.Call) and isinstance(it.func, ast.Name) and it.func.id == 'enumerate' \
                 and 'enumerate' not in self.modnames and 'enumerate' not in env and len(it.args) == 1 and not it.keywords:
-            if not (isinstance(tgt, ast.Tuple) and len(tgt.elts) == 2 and all(isinstance(e, ast.Name) for e in tgt.elts)):
+            if isinstance(tgt, ast.Tuple) and len(tgt.elts) == 2 and isinstance(tgt.elts[0], ast.Name) and isinstance(tgt.elts[1], ast.Tuple) \
+                    and all(isinstance(e, ast.Name) for e in tgt.elts[1].elts) \
+                    and len({e.id for e in tgt.elts[1].elts} | {tgt.elts[0].id}) == len(tgt.elts[1].elts) + 1:
+                # wave 8: `for i, (a, b, ..) in enumerate(xs)` over a list of tuples: the tuple gets a name, a, b, .. are its parts
+                it, iname, cname = it.args[0], tgt.elts[0].id, f'item{s.lineno}_'
+                self.tupletarget[cname] = [e.id for e in tgt.elts[1].elts]
+                tgt = None
+            elif not (isinstance(tgt, ast.Tuple) and len(tgt.elts) == 2 and all(isinstance(e, ast.Name) for e in tgt.elts)):
                 self.fail(s, 'target of a loop over enumerate(..) is not `i, ch`')
-            it, iname, cname = it.args[0], tgt.elts[0].id, tgt.elts[1].id
+            else:
+                it, iname, cname = it.args[0], tgt.elts[0].id, tgt.elts[1].id
         elif isinstance(tgt, ast.Name):
             cname = tgt.id
         elif isinstance(tgt, ast.Tuple) and len(tgt.elts) == 2 and all(isinstance(e, ast.Name) for e in tgt.elts) \
@@ -3176,6 +3261,8 @@ class Fn:
             self.fail(s, f'`for` over a value of type {itv.type}' if itv.type not in ITER else '`for .. else`')
         if cname in self.pairtarget and itv.type != 'ItemList' and not itv.type.startswith('Pairs:'):
             self.fail(s, f'`for {ast.unparse(tgt)}` over a value of type {itv.type} (only a list of pairs (name, value))')
+        if cname in self.tupletarget and not (itv.type.startswith('List:Tuple:') and len(itv.type[11:].split(' × ')) == len(self.tupletarget[cname])):
+            self.fail(s, f'tuple target of {len(self.tupletarget[cname])} names over a value of type {itv.type}')
         return self.loop(s, rest, env, tail, iname, cname, itv, None)
 
     def while_(self, s, rest, env, tail):
@@ -3195,10 +3282,11 @@ class Fn:
     def loop(self, s, rest, env, tail, iname, cname, itv, fuel):
         """a `for` over the characters of `itv` (fuel None) or a `while` on fuel: a separate recursive definition"""
         outer = (self.slots, self.slot_init, self.loopctx)      # a loop inside a loop body: its own definition
-        if self.loopctx and any(isinstance(n, (ast.Break, ast.Continue, ast.Return)) for st in s.body for n in ast.walk(st)):
-            self.fail(s, 'nested loop with break / continue / return')
+        if self.loopctx and any(isinstance(n, (ast.Break, ast.Continue, ast.Return)) for st in s.body for n in ast.walk(st)) \
+                and (self.t.group != 'tz' or any(isinstance(n, ast.Return) for st in s.body for n in ast.walk(st))):
+            self.fail(s, 'nested loop with break / continue / return')      # (wave 8, group tz: break / continue of the inner loop are its own)
         pre0 = self.take_pre()
-        targets = ({iname, cname} | set(self.pairtarget.get(cname, ()))) - {None}
+        targets = ({iname, cname} | set(self.pairtarget.get(cname, ())) | set(self.tupletarget.get(cname, ()))) - {None}
         asg = self.assigned_env(s.body, env)
         stored = {n.id for st in s.body for n in ast.walk(st) if isinstance(n, ast.Name) and isinstance(n.ctx, ast.Store)}
         asg = [n for n in asg if not (n in targets and n not in stored)]    # `v.attr = x` on the loop variable: local to the iteration
@@ -3213,7 +3301,17 @@ class Fn:
         for n in asg:
             if n not in env and n not in targets and n in later:
                 self.fail(s, f'`{n}` is first bound inside the loop and read after it')
-        if cname in later and cname not in comp_local:
+        def rebound_by_later_for(name):
+            """wave 8: every read of the name after this loop lies in the body of a later `for` that binds it anew"""
+            inside = set()
+            for st in rest:
+                for f in ast.walk(st):
+                    if isinstance(f, ast.For) and any(isinstance(n, ast.Name) and n.id == name for n in ast.walk(f.target)) \
+                            and not any(isinstance(n, ast.Name) and n.id == name for n in ast.walk(f.iter)):
+                        inside |= {id(n) for b in f.body for n in ast.walk(b)}
+            loads = [n for st in rest for n in ast.walk(st) if isinstance(n, ast.Name) and n.id == name and isinstance(n.ctx, ast.Load)]
+            return bool(loads) and all(id(n) in inside for n in loads) and name not in tail.names
+        if cname in later and cname not in comp_local and not rebound_by_later_for(cname):
             self.fail(s, f'the loop variable `{cname}` is read after the loop')
         for n in state:
             if env[n].type in ('Tuple',) or env[n].type.startswith('Unbound'):
@@ -3249,7 +3347,7 @@ class Fn:
             if re.fullmatch(r"[A-Za-z_][\w']*", n) and n not in inner and word(n) and n not in [c[0] for c in caps]:
                 caps.append((n, typ))
         capsig = ('«EXTSIG»' if self.objself else '') + ''.join(f' ({n} : {lean_type(t)})' for n, t in caps)
-        if self.t.group in ('parse', 'alarm', 'recur', 'add', 'cdmeta', 'tzuse'):     # the opaque types the loop mentions
+        if self.t.group in ('parse', 'alarm', 'recur', 'add', 'cdmeta', 'tzuse', 'tz'):     # the opaque types the loop mentions
             ops = opaque_types([lean_type(t) for _, t in caps] + [lean_type(slots[n]) for n in state]
                                + ([lean_type(itv.type)] if itv is not None else []))
             if not self.objself:        # (a method on the tree: «EXTSIG» brings the function's own binders)
@@ -3385,6 +3483,9 @@ class Fn:
                 benv[self.pairtarget[cname][1]] = V(f'{lname(cname)}.2', pt, None)
         if iname:
             benv[iname] = V(lname(iname), 'Int', None)
+        if cname in self.tupletarget:
+            for nm, pv in zip(self.tupletarget[cname], self.tuple_parts(benv[cname])):
+                benv[nm] = pv
         cur = lambda e: [e[n].lean for n in state]   # noqa: E731
 
         def again(e):       # the end of the body and `continue`: the next iteration
@@ -3568,24 +3669,47 @@ class Fn:
         """the first `for` loop of the function and the constant initialisations directly in front of it; the free
         variables are the declared arguments; the result is the tuple of the variables named in the target"""
         t = self.t
-        frag = find_fragment(self.func)
-        if frag is None:
-            self.fail(self.func, 'no `for` loop found')
-        self.notes.append(f'FRAGMENT: lines {frag[0].lineno}-{frag[-1].end_lineno} of the function (the first `for` loop and the '
-                          f'constant initialisations in front of it); result = ({", ".join(t.fragment)}), where a loop '
-                          f'variable is None when the loop never ran')
-        env = {n: self.param(lname(n), typ) for n, typ in (t.args or {}).items()}
-        self.nargs = len(self.used)
-        types = []
+        if isinstance(t.fragment, dict):
+            # wave 8: the statements AFTER the top-level statement whose text is `after`, up to the final `return` of the
+            # function, which must return exactly the tuple of the names in `result`
+            names = list(t.fragment['result'])
+            body0 = [st for st in self.func.body]
+            k = next((i for i, st in enumerate(body0) if ast.unparse(st) == t.fragment['after']), None)
+            if k is None:
+                self.fail(self.func, f'fragment marker `{t.fragment["after"]}` is not a top-level statement of the function')
+            frag = body0[k + 1:]
+            if not frag or not isinstance(frag[-1], ast.Return) or ast.unparse(frag[-1].value) != '(' + ', '.join(names) + ')':
+                self.fail(self.func, f'the function does not end in `return {", ".join(names)}`')
+            frag = frag[:-1]
+            self.notes.append(f'FRAGMENT: lines {frag[0].lineno}-{frag[-1].end_lineno} of the function (everything after '
+                              f'`{t.fragment["after"]}`); result = what the function returns, ({", ".join(names)})')
+        else:
+            names = list(t.fragment)
+            frag = find_fragment(self.func)
+            if frag is None:
+                self.fail(self.func, 'no `for` loop found')
+            self.notes.append(f'FRAGMENT: lines {frag[0].lineno}-{frag[-1].end_lineno} of the function (the first `for` loop and the '
+                              f'constant initialisations in front of it); result = ({", ".join(names)}), where a loop '
+                              f'variable is None when the loop never ran')
+        saved_notes = list(self.notes)
+        while True:
+            env = {n: self.param(lname(n), typ) for n, typ in (t.args or {}).items()}
+            self.nargs = len(self.used)
+            types = []
 
-        def result(e):
-            for n in t.fragment:
-                if n not in e:
-                    self.fail(self.func, f'fragment result `{n}` is not bound')
-                types.append(lean_type(e[n].type))
-            return ['(' + ', '.join(e[n].lean for n in t.fragment) + ')']
-        # the variables of the result are "read later"
-        body = self.block(frag, env, Tail(list(t.fragment), result))
+            def result(e):
+                for n in names:
+                    if n not in e:
+                        self.fail(self.func, f'fragment result `{n}` is not bound')
+                    types.append(lean_type(e[n].type))
+                return [self.ret('(' + ', '.join(e[n].lean for n in names) + ')')]
+            try:
+                # the variables of the result are "read later"
+                body = self.block(frag, env, Tail(names, result))
+                break
+            except NeedMonad:
+                self.monadic, self.used, self.rtype, self.fresh, self.pre, self.notes = True, [], None, 0, [], list(saved_notes)
+                self.aux, self.nloops, self.loopctx, self.slots, self.narrow = [], 0, [], {}, {}
         self.rtype, self.rtype_lean = 'Tuple', ' × '.join(types)
         return body
 
@@ -3706,6 +3830,14 @@ HEADERS['cdsort'] = ['/- GENERATED by tools/py2lean.py (called from tools/extrac
                      '   `sorted` and `x or []` are the definitions of ICal/Model/PyRTDict.lean; `sorted` of str is the code-point order. -/',
                      'import ICal.Model.PyRTDict', 'set_option linter.unusedVariables false',
                      'namespace ICal.Gen.BodiesCDictSort', 'open ICal ICal.PyRT', '']
+NAMESPACE['tz'] = 'ICal.Gen.BodiesTz'
+HEADERS['tz'] = ['/- GENERATED by tools/py2lean.py (called from tools/extract.py) from the second half of Timezone.get_transitions of',
+                 '   src/icalendar/cal.py (a FRAGMENT: everything after `transitions.sort()`). Do not edit: regenerated on every run;',
+                 '   lean/ICal/Lemmas/BodiesTz.lean proves it equal to the hand-written model (ICal/Model/Tz.lean: `infoGo`, `dstOffset`).',
+                 '   Instants and timedeltas are ints of seconds; a transition is the tuple (transtime, osfrom, osto, name); a local that',
+                 '   is `False` or a timedelta is `Option Int`; `xs[i]`, `range`, `dst[name]` are partial (ICal/Model/PyRTTz.lean). -/',
+                 'import ICal.Model.PyRTTz', 'set_option linter.unusedVariables false',
+                 'namespace ICal.Gen.BodiesTz', 'open ICal ICal.PyRT', '']
 GROUP_USES = {'tzuse': ['ser', 'walk']}      # groups whose translated functions this group calls (imported, qualified names)
 NAMESPACE['walk'] = 'ICal.Gen.BodiesWalk'
 HEADERS['walk'] = ['/- GENERATED by tools/py2lean.py (called from tools/extract.py) from Component._walk / walk of',
@@ -3812,7 +3944,7 @@ def translate(src_dir, group='enc', registry=None):
         sig = ''.join(f' ({p} : {lean_type(ty)})' for p, ty in fn.used)
         opaque = sorted({e[3] for e in t.externals.values() if isinstance(e[0], str) and e[0] in ('pfun', 'expr') and e[3] not in LEAN_TYPE and e[3] != 'Object' and ':' not in e[3]})
         opaque = sorted(set(opaque) | {o for o in ('AT',) if re.search(r'\b' + o + r'\b', sig)})
-        if group in ('parse', 'alarm', 'recur', 'add', 'cdmeta', 'tzuse') or t.lean in ('vMonth_new', 'vDDDLists_to_ical'):
+        if group in ('parse', 'alarm', 'recur', 'add', 'cdmeta', 'tzuse', 'tz') or t.lean in ('vMonth_new', 'vDDDLists_to_ical'):
             opaque = opaque_types([lean_type(ty) for _, ty in fn.used] + [fn.rtype_lean or lean_type(fn.rtype)])
         sig = ''.join(f' {{{o} : Type}}' for o in opaque) + ''.join(f' [BEq {o}]' for o in sorted(getattr(fn, 'setelts', ())) if o in opaque) + sig
         rt = fn.rtype_lean or lean_type(fn.rtype)
